@@ -365,6 +365,9 @@ def r11_or_assign(w):
 def r9_str_len(w, receivers):
     n = 0
     for r in receivers:
+        for h in re.finditer(r"\b%s\s*\.chars\(\)\s*\.count\(\)" % re.escape(r), w.mbody):
+            w.replace(h.start(), h.end(), "str_char_count(%s)" % r, "R9", "str::chars().count() via shim with char-count contract")
+            n += 1
         for h in re.finditer(r"\b%s\.len\(\)" % re.escape(r), w.mbody):
             w.replace(h.start(), h.end(), "str_len(%s)" % r, "R9", "str::len via shim with byte-length contract")
             n += 1
@@ -473,8 +476,41 @@ def r9_stop_poll(w, receivers):
     n = 0
     for r in receivers:
         for h in re.finditer(r"(?<![\w\.])%s\s*\.load\s*\(" % re.escape(r).replace(r"\.", r"\s*\.\s*"), w.mbody):
+            if any(ed.s <= h.start() < ed.e for ed in w.edits):
+                continue
             po = h.end() - 1
             pc = lexer.match_close(w.body, po)
             w.replace(h.start(), pc + 1, "stop_poll(&%s, Tracked(w))" % r, "R9", "stop flag poll: nondeterministic value, recorded in ghost stop_seen")
             n += 1
+    return n
+
+
+# ----------------------------------------------------------------------------
+# R13: std::path / std::fs re-rooted to the shim module (single-file mode cannot shadow `std`)
+# ----------------------------------------------------------------------------
+
+def r13_reroot(w, mapping):
+    n = 0
+    for src, dst in mapping.items():
+        for h in re.finditer(r"(?<![\w:])%s" % re.escape(src), w.mbody):
+            if any(ed.s <= h.start() < ed.e for ed in w.edits):
+                continue
+            w.replace(h.start(), h.end(), dst, "R13", "%s re-rooted to shim module %s" % (src, dst))
+            n += 1
+    return n
+
+
+def r9_method_to_fn(w, method, fn_name, by_mut=False, arg_map=None):
+    """`RECV.method(ARGS)` -> `fn_name(&RECV, ARGS)` for std methods without a Verus specification (RECV = dotted path)."""
+    n = 0
+    for h in re.finditer(r"((?:\w+\s*\.\s*)*\w+)\s*\.\s*%s\s*\(" % re.escape(method), w.mbody):
+        po = h.end() - 1
+        pc = lexer.match_close(w.body, po)
+        recv = re.sub(r"\s+", "", h.group(1))
+        args = w.body[po + 1:pc].strip()
+        for a, b in (arg_map or {}).items():
+            args = args.replace(a, b)
+        w.replace(h.start(), pc + 1, "%s(&%s%s%s)" % (fn_name, "mut " if by_mut else "", recv, (", " + args) if args else ""), "R9",
+                  "std method `%s` without Verus spec -> shim fn %s" % (method, fn_name))
+        n += 1
     return n
